@@ -105,6 +105,14 @@ let spec_obs (g : grammar) (extras : bool) (rule : string) (input : byte list) :
     | SFuel -> "Fuel"
   with Stack_overflow -> "Fuel"
 
+(* for the before/after comparisons of one rule under Spec: the end of the match as well (a silent rule has no node that would show it) *)
+let spec_obs_pos (g : grammar) (extras : bool) (rule : string) (input : byte list) : string =
+  try match spec_parse g extras (fun _ -> None) input fuel (bytes_of rule) with
+    | SMatch (p, _, f) -> sp "Ok@%d %s" (int_of_nat p) (forest_string (names_of_g g) f)
+    | SFail -> "Err"
+    | SFuel -> "Fuel"
+  with Stack_overflow -> "Fuel"
+
 let all_strings (alpha : string list) (n : int) : string list =
   let out = ref [""] and layer = ref [""] in
   for _ = 1 to n do
@@ -146,9 +154,11 @@ let () =
   let per_pass = Array.make 9 0 in
   let class_counts : (string, int) Hashtbl.t = Hashtbl.create 16 in
   let bump c = Hashtbl.replace class_counts c (1 + try Hashtbl.find class_counts c with Not_found -> 0) in
-  let spec_report cls case impl expected =
+  let reclassified = ref 0 in
+  (* `known` = the difference is the known finding C05-lister: decided by the caller from the Coq class, never from the pass number alone *)
+  let spec_report ?(known = false) cls case impl expected =
     bump cls;
-    if cls = "pass5" || cls = "lister" then begin incr known_lister; if !known_lister <= 3 then Printf.printf "KNOWN\tlister\t%s\t%s\t%s\n" case impl expected end
+    if known || cls = "lister" then begin incr known_lister; if !known_lister <= 3 then Printf.printf "KNOWN\tlister\t%s\t%s\t%s\n" case impl expected end
     else report "spec" case (cls ^ "|" ^ impl) expected in
   read_lines (fun line ->
     if String.length line > 0 && line.[0] = '#' then print_endline line else
@@ -172,12 +182,18 @@ let () =
       if !speclen > 0 && p <= 5 && gout <> "PANIC" && gout <> gin && List.exists (fun r -> r.rname = bytes_of "r0") g then begin
         let g' = grammar_of gout in
         let fuels = ref 0 in
+        (* the list pass: a difference is the known finding only on a rule set of the class (the rewrite of coq/Opt/List.v fires) and, when
+           the real pass did something else than that rewrite, only on an input on which the known rewrite alone changes the result too *)
+        let in_class = p = 5 && (try lister_applies g with Stack_overflow -> true) in
+        let gk = if in_class && model <> gout && model <> "PANIC" && model <> "OVERFLOW" then (try Some (grammar_of model) with _ -> None) else None in
         List.iter (fun inp -> if !fuels < 3 then begin
           incr spec_cases;
           let input = bytes_of inp in
-          let before = spec_obs g extras "r0" input and after = spec_obs g' extras "r0" input in
+          let before = spec_obs_pos g extras "r0" input and after = spec_obs_pos g' extras "r0" input in
           if before = "Fuel" || after = "Fuel" then begin incr spec_fuel; incr fuels end
-          else if before <> after then spec_report (sp "pass%d" p) (sp "%s in=%s" case (hex input)) after before end)
+          else if before <> after then begin
+            let known = in_class && (match gk with None -> true | Some gk -> spec_obs_pos gk extras "r0" input <> before) in
+            spec_report ~known (sp "pass%d" p) (sp "%s in=%s" case (hex input)) after before end end)
           (spec_inputs gin !speclen)
       end
     | ["G"; id; x; g] -> Hashtbl.replace gs id (x = "1", g, grammar_of g)
@@ -193,8 +209,16 @@ let () =
       let spec = spec_obs (grammar_of gtxt) (x = "1") rule (unhex inp) in
       Printf.printf "WITNESS\t%s\t%s\t%s\t%s\t%s\t%s\n" name (if impl = spec then "agrees" else "DISAGREES") gtxt inp impl spec;
       if impl <> spec then spec_report name (sp "x=%s witness=%s rule=%s in=%s g=%s" x name rule inp gtxt) impl spec
+    (* real VM before/after a pass.  Class `lister` (the harness found the known rewrite firing) is checked against the Coq class: the
+       extracted lister_applies on the rules the list pass was given (pass 5), lister_class on the rule set (pass 8: the pipeline);
+       outside the class the line counts like any other difference *)
+    | ["CONTRACT"; "lister"; pass; x; gtxt; inp; before; after] when pass = "5" || pass = "8" ->
+      let in_class = (try let g = grammar_of gtxt in if pass = "5" then lister_applies g else (lister_class !ovf (x = "1") g || lister_class (not !ovf) (x = "1") g)
+                      with Stack_overflow -> true) in
+      if in_class then print_endline line
+      else begin incr reclassified; Printf.printf "CONTRACT\tother\t%s\t%s\t%s\t%s\t%s\t%s\n" pass x gtxt inp before after end
     | "CONTRACT" :: _ -> print_endline line
     | _ -> ());
-  Printf.printf "#RUNNER\tcases=%d\tmismatches=%d\tspec_cases=%d\tspec_undecided=%d\tknown_lister=%d\tpanics_agree=%d\t%s\t%s\n" !n !mismatches !spec_cases !spec_fuel !known_lister !panics_agree
+  Printf.printf "#RUNNER\tcases=%d\tmismatches=%d\tspec_cases=%d\tspec_undecided=%d\tknown_lister=%d\tpanics_agree=%d\tlister_reclassified=%d\t%s\t%s\n" !n !mismatches !spec_cases !spec_fuel !known_lister !panics_agree !reclassified
     (String.concat "\t" (List.mapi (fun i c -> sp "pass%d_cases=%d" i c) (Array.to_list per_pass)))
     (String.concat "\t" (Hashtbl.fold (fun k v acc -> sp "class/%s=%d" k v :: acc) class_counts []))
